@@ -175,6 +175,7 @@ Definition check_cases (cs : list (nat * tcase)) : list (nat * list nat) :=
    run on the observed state before phase 3, must reproduce the observed state after it — the order of every
    layer, every position — and the crossing number sent to the monitor (codes 15xx, 1500 for the number) *)
 Definition check_wmedian (c : tcase) : list nat :=
+  if negb (c_wmedian c) then [] else      (* OrderingNoop: the ordering phase does nothing *)
   let ncomp := length (filter (fun s => Nat.eqb (s_label s) 1) (c_snaps c)) in
   let r := fold_left (fun (acc : list nat * list Z) i =>
              match find_snap c 4 (Z.of_nat i), find_snap c 5 (Z.of_nat i) with
@@ -202,7 +203,7 @@ Definition check_e2e (c : tcase) : list nat :=
               | OtherPositioner, _ => negb (bk_modelled && (-2 <? c_bk c)%Z)
               | _, _ => false
               end in
-  if skip then [] else
+  if skip || negb (c_wmedian c) then [] else      (* [layout] always orders with the weighted median *)
   (* [layout_x] is [layout] unless the positioner is Brandes-Koepf *)
   match layout_x ident ieqb (c_bk c) (c_opts c) (c_fixed c) (c_sizes c) (c_edges c) with
   | Ok (ids, (ns, es, xs)) =>
